@@ -84,9 +84,12 @@ impl Scenario for Frames {
                 // (b) stream of frames
                 let mut p = Plan::new("frames", "");
                 let k = rng.range(2, 20);
-                for _ in 0..k {
+                // one frame in every eighth stream is generated in big mode (sequences of 1..3
+                // preallocation chunks +-1), so that a multi-chunk value sits between other frames
+                let big_at = if rng.chance(1, 8) { rng.below(k) } else { u64::MAX };
+                for i in 0..k {
                     let s = pick_subject(&mut rng, &|s| !s.heavy);
-                    let v = gen_value(&mut rng, s, false);
+                    let v = gen_value(&mut rng, s, i == big_at);
                     p.msgs.push(Msg { subject: s.name.to_string(), value: v, sink: SinkSpec::owned() });
                 }
                 p.subject = p.msgs[0].subject.clone();
